@@ -680,7 +680,7 @@ theorem step_neutral (r : RState) (op : ROp) (hn : op.neutral = true) :
   | write s => simp [step, write]
   | repaintMsg => simp [step, RState.repaint]
   | clearScreen => simp [step, clearScreen, RState.repaint, nonMode]
-  | kill => simp [step, kill, nonMode]
+  | kill => simp [step, kill, nonMode, RState.repaint]
   | title s => simp [step, nonMode]
   | _ => simp [ROp.neutral] at hn
 
